@@ -167,6 +167,20 @@ Definition jclass_id (j : jclass) : N :=
   | JSearchEmpty => 9 | JLookupNoWord => 10 | JSortlistMask => 11
   end.
 
+(* The HOSTALIASES file (hostname(7)): one "alias target" pair per line.  A line defines the alias
+   [name] when its first word (at most 63 printable characters) is the name, ignoring case, and its
+   second word is a host name: 1..255 characters of the host-name character set.  Every other line
+   - another alias, no target, a target with other characters, an over-long word - is junk for
+   this lookup, wherever it stands. *)
+Definition alias_word1 (l : bytes) : bytes := fst (span (fun c => negb (isspace c)) l).
+Definition alias_word2 (l : bytes) : bytes :=
+  fst (span (fun c => negb (isspace c)) (dropwhile isspace (snd (span (fun c => negb (isspace c)) l)))).
+Definition alias_line_usable (name l : bytes) : bool :=
+  (length (alias_word1 l) <=? 63)%nat && forallb isprint (alias_word1 l) && bytes_caseeq (alias_word1 l) name &&
+  negb (length (alias_word2 l) =? 0)%nat && (length (alias_word2 l) <=? 255)%nat && forallb is_hostnamech (alias_word2 l).
+Definition junk_alias_line (name raw : bytes) : bool :=
+  if mem ch_nl raw then false else negb (alias_line_usable name (rtrim (ltrim raw))).
+
 (* C15 ranges as documented (docs/ares_init_options.3: ndots valid range 0-15) and as needed by
    the rest of the library (timeout and tries are never 0 once a channel exists) *)
 Definition ndots_documented_max : Z := 15%Z.
